@@ -100,6 +100,13 @@ fn mrc(a: &[&str]) -> (ManifestResourceConstraint, usize) {
 
 fn run(a: &[&str]) -> String {
     match a[0] {
+        "nfid_from_str" => {
+            match NonFungibleLocalId::from_str(&String::from_utf8(hex(a.get(1).copied().unwrap_or(""))).unwrap()) {
+                Ok(NonFungibleLocalId::Integer(v)) => format!("ok {}", v.value()),
+                Ok(_) => "other".to_string(),
+                Err(_) => "err".to_string(),
+            }
+        }
         "mrc_fungible" => {
             let (c, k) = mrc(&a[1..]);
             match c.validate_fungible(dec(a[1 + k])) {
